@@ -325,7 +325,9 @@ def run_sims(ck, profile):
     sims = []
     depth = 2 if ck.tier == "quick" else 3
     seen = set()
-    for pre, seq in small_scope_histories(depth, PREFIXES):
+    scoped = list(small_scope_histories(depth, PREFIXES)) + [(pre, seq) for pre, seq in small_scope_histories(depth + 1, PREFIXES[:1])
+                                                               if len(seq) == depth + 1]
+    for pre, seq in scoped:
         sim = run_scripted(pre, seq, rng)
         sig = repr([e.get("label") for e in sim.trace])
         if sig in seen:
